@@ -891,3 +891,64 @@ def run_p19_p20(chk, repo):
                                       'unfixed')
     if n20 < 2:
         raise AnalysisError(f'P20: only {n20} comment fragments found in the record writers')
+
+
+LOSSY_POSITIVE = "def f(x):\n    return f'{x:g}', '%.6f' % x, format(x, '.3e'), round(x, 4), '{:.5g}'.format(x)\n"
+
+
+def lossy_number_conversions(node):
+    """[(ast node, text)]: conversions of a number to text (or to a shorter number) that keep only some of its digits:
+    format specs with a precision or a g/e/f presentation, %-formatting with %g/%e/%f, format(x, spec), str.format with such a
+    spec, round(x, n). str(float) / repr(float) are exact (shortest round-trip representation) and are not reported."""
+    import re
+    spec_re = re.compile(r'(\.\d+)?[gGeEfF%]$|\.\d+$')
+    out = []
+    for n in ast.walk(node):
+        if isinstance(n, ast.FormattedValue) and n.format_spec is not None:
+            spec = ''.join(v.value for v in n.format_spec.values if isinstance(v, ast.Constant) and isinstance(v.value, str))
+            if spec_re.search(spec) or any(not isinstance(v, ast.Constant) for v in n.format_spec.values):
+                out.append((n, f'format spec {spec!r}'))
+        elif isinstance(n, ast.BinOp) and isinstance(n.op, ast.Mod) and isinstance(n.left, ast.Constant) \
+                and isinstance(n.left.value, str) and re.search(r'%[-+ 0#]*\d*(\.\d+)?[gGeEfF]', n.left.value):
+            out.append((n, f'%-format {n.left.value!r}'))
+        elif isinstance(n, ast.Call) and isinstance(n.func, ast.Name) and n.func.id == 'format' and len(n.args) == 2 \
+                and isinstance(n.args[1], ast.Constant) and spec_re.search(str(n.args[1].value)):
+            out.append((n, f'format(.., {n.args[1].value!r})'))
+        elif isinstance(n, ast.Call) and isinstance(n.func, ast.Attribute) and n.func.attr == 'format' \
+                and isinstance(n.func.value, ast.Constant) and isinstance(n.func.value.value, str) \
+                and re.search(r'\{[^{}]*:[^{}]*((\.\d+)?[gGeEfF]|\.\d+)\}', n.func.value.value):
+            out.append((n, f'str.format {n.func.value.value!r}'))
+        elif isinstance(n, ast.Call) and isinstance(n.func, ast.Name) and n.func.id == 'round' and len(n.args) == 2:
+            out.append((n, 'round(.., n)'))
+        elif isinstance(n, ast.Call) and (dotted(n.func) or '').split('.')[-1] in ('format_float_positional', 'format_float_scientific',
+                                                                                 'float32', 'float16'):
+            out.append((n, dotted(n.func)))
+    return out
+
+
+def run_p22(chk, repo):
+    """P22: every number that ThetaRecord.update / OmegaRecord.update write into a NUMERIC token (initial estimates and bounds)
+    reaches the token through an exact conversion: no function of the two record modules, and no helper they call to produce
+    the token text, limits the number of digits. Exactness of str(float) is Python's (shortest repr that round-trips)."""
+    P22 = chk.rule('P22', '$THETA / $OMEGA writers: numbers reach their NUMERIC token through an exact conversion (no precision-'
+                          'limiting format spec, %-format, format(), round())', floor=6)
+    if len(lossy_number_conversions(ast.parse(LOSSY_POSITIVE))) != 5:
+        raise AnalysisError('P22: the lossy-conversion recogniser does not match its positive example')
+    for mn in ('pharmpy.model.external.nonmem.records.theta_record', 'pharmpy.model.external.nonmem.records.omega_record'):
+        m = repo.module(mn)
+        funs = list(m.functions.values()) + [f for c in dict.values(m.classes) for f in c.methods.values()]
+        ntok = 0
+        for f in funs:
+            for c in walk_no_nested(f.node):
+                if isinstance(c, ast.Call) and (dotted(c.func) or '').endswith('AttrToken') and len(c.args) == 2 \
+                        and isinstance(c.args[0], ast.Constant) and c.args[0].value == 'NUMERIC':
+                    ntok += 1
+                    chk.instance(P22, f'{m.rel.split("/")[-1]}:{f.qualname}: NUMERIC token from {unparse(c.args[1])[:50]}')
+            for n, how in lossy_number_conversions(f.node):
+                chk.violation(P22, m.rel, f.qualname, how,
+                              f'{how}: the number written to the control stream keeps only some of its digits, so the re-read '
+                              f'parameter differs from the one in the model', line=n.lineno,
+                              witness='set a lower bound 0.000123456789 (or an initial estimate with more than 6 significant '
+                                      'digits) and re-read the written model')
+        if ntok == 0:
+            raise AnalysisError(f'P22: no NUMERIC token construction found in {mn}')
